@@ -36,6 +36,8 @@ func (c *ocodeClient) Emit(line string) error {
 	log.Printf("debug: [ocode_client] emit %s\n", line)
 	ocode, err := parseLineToOcode(line)
 	if err != nil {
+		// 呼び出し側は戻り値を見ていないため、ここで必ず報告する (命令が黙って捨てられるのを防ぐ)
+		log.Printf("error: [ocode_client] cannot emit '%s': %v", strings.TrimSpace(line), err)
 		return err
 	}
 	c.Ocodes = append(c.Ocodes, ocode)
